@@ -71,9 +71,11 @@ def unit_set(rnd):
             if rnd.random() < 0.4:
                 L.append('StartWithPod=' + rnd.choice(['no', 'yes', '', 'x']))
             for _ in range(rnd.randint(0, 2)):
-                L.append('Network=' + rnd.choice([ref('network'), ref('container'), ref('network') + ':ip=1.2.3.4', 'host', ref('container') + ':x']))
+                L.append('Network=' + rnd.choice([ref('network'), ref('container'), ref('network') + ':ip=1.2.3.4', 'host', ref('container') + ':x',
+                                                  ref('network') + ':mac=92:d0:c6:0a:29:33', ref('network') + ':ip6=fd00::5,alias=a:b', 'bridge:ip=10.0.0.2:x']))
             for _ in range(rnd.randint(0, 2)):
-                L.append('Volume=' + rnd.choice([ref('volume') + ':/data', ref('volume') + ':/d:ro', '/host:/c', 'named:/n']))
+                L.append('Volume=' + rnd.choice([ref('volume') + ':/data', ref('volume') + ':/d:ro', '/host:/c', 'named:/n', ref('volume') + ':/d:ro:z,U',
+                                                 ref('volume'), '/only-dest', ref('volume') + ':/d:']))
             if rnd.random() < 0.3:
                 L.append('Mount=type=' + rnd.choice(['volume,source=' + ref('volume') + ',dst=/m', 'image,src=' + ref('image') + ',dst=/i',
                                                      'bind,source=./x,target=/y', 'tmpfs,dst=/t']))
@@ -104,18 +106,18 @@ def unit_set(rnd):
             if rnd.random() < 0.4:
                 L.append('Volume=' + ref('volume') + ':/b')
             if rnd.random() < 0.4:
-                L.append('Network=' + ref('network'))
+                L.append('Network=' + ref('network') + rnd.choice(['', '', ':ip=10.1.1.1', ':mac=92:d0:c6:0a:29:33']))
         elif ty == 'kube':
             L.append('Yaml=/opt/k.yaml')
             if rnd.random() < 0.5:
-                L.append('Network=' + ref('network'))
+                L.append('Network=' + ref('network') + rnd.choice(['', '', ':ip6=fd00::5']))
         elif ty == 'pod':
             if rnd.random() < 0.3:
                 L.append('PodName=pn-' + st)
             if rnd.random() < 0.4:
-                L.append('Network=' + ref('network'))
+                L.append('Network=' + ref('network') + rnd.choice(['', '', ':mac=92:d0:c6:0a:29:33,ip=1.2.3.4']))
             if rnd.random() < 0.4:
-                L.append('Volume=' + ref('volume') + ':/p')
+                L.append('Volume=' + ref('volume') + rnd.choice([':/p', ':/p:ro:z']))
         files[st + '.' + ty] = '\n'.join(L) + '\n'
     return files
 
